@@ -77,7 +77,7 @@ func TestVerifC57(t *testing.T) {
 	env := rec.Env
 	ctx := context.Background()
 
-	var nQueries, nUnique, nNone, nMulti, errTypeOther, nonNullWithErr int64
+	var nQueries, nUnique, nNone, nMulti, errTypeOther, nonNullWithErr, nMemorized int64
 
 	judge := func(ids []restic.ID, prefix, class string, hasNull bool) {
 		matches := 0
@@ -102,7 +102,19 @@ func TestVerifC57(t *testing.T) {
 		}
 		var got restic.ID
 		var err error
-		if rec.Guard("panic", q(), func() { got, err = restic.Find(ctx, l, ft, prefix) }) {
+		// every other query resolves through a memorized listing, the way snapshot ids given on
+		// the command line are resolved (FindAll); added after seeded change C57-2
+		var lister restic.Lister = l
+		if nQueries%2 == 1 {
+			ml, merr := restic.MemorizeList(ctx, l, ft)
+			if merr != nil {
+				rec.Violation("memorize-failed", fmt.Sprintf("MemorizeList failed: %v", merr), q())
+				return
+			}
+			lister = ml
+			nMemorized++
+		}
+		if rec.Guard("panic", q(), func() { got, err = restic.Find(ctx, lister, ft, prefix) }) {
 			return
 		}
 		nQueries++
@@ -242,6 +254,7 @@ func TestVerifC57(t *testing.T) {
 	}
 
 	rec.Count("find_calls", nQueries)
+	rec.Count("find_calls_through_memorized_listing", nMemorized)
 	rec.Count("queries_with_unique_match", nUnique)
 	rec.Count("queries_without_match", nNone)
 	rec.Count("queries_with_multiple_matches", nMulti)
